@@ -280,9 +280,9 @@ fn arm_watchdog(limit_s: f64, replay_of: Option<(String, String)>) {
     });
 }
 
-thread_local! {
-    static LAST_PANIC: RefCell<Option<String>> = const { RefCell::new(None) };
-}
+/// description of the most recent panic in this process (panics of worker threads of the code
+/// under test must be visible to the thread that runs the check, hence not thread-local)
+static LAST_PANIC: std::sync::Mutex<Option<String>> = std::sync::Mutex::new(None);
 
 pub fn install_quiet_panic_hook() {
     std::panic::set_hook(Box::new(|info| {
@@ -297,7 +297,12 @@ pub fn install_quiet_panic_hook() {
         } else {
             "<non-string panic>".to_string()
         };
-        LAST_PANIC.with(|p| *p.borrow_mut() = Some(format!("{msg} @ {loc}")));
+        if let Ok(mut g) = LAST_PANIC.lock() {
+            // keep the first panic of a cascade (later ones are usually "thread panicked" echoes)
+            if g.is_none() || !msg.contains("Expected") {
+                *g = Some(format!("{msg} @ {loc}"));
+            }
+        }
         if std::env::var("VERIF_SHOW_PANICS").is_ok() {
             eprintln!("[panic] {msg} @ {loc}");
         }
@@ -305,9 +310,7 @@ pub fn install_quiet_panic_hook() {
 }
 
 pub fn take_last_panic() -> String {
-    LAST_PANIC
-        .with(|p| p.borrow_mut().take())
-        .unwrap_or_else(|| "<unknown panic>".into())
+    LAST_PANIC.lock().ok().and_then(|mut g| g.take()).unwrap_or_else(|| "<unknown panic>".into())
 }
 
 /// Run `f`, turning a panic into `Err(description)`.
